@@ -393,7 +393,12 @@ bool BuildLog::Recompact(const std::string& path, const BuildLogUser& user,
   for (StringPiece output : dead_outputs)
     entries_.erase(output);
 
-  fclose(f);
+  // The entries may still sit in the stdio buffer: only a successful close
+  // says that the new file is complete and may replace the old one.
+  if (fclose(f) != 0) {
+    *err = strerror(errno);
+    return false;
+  }
 
   return ReplaceContent(path, temp_path, err);
 }
@@ -441,7 +446,10 @@ bool BuildLog::Restat(const StringPiece path,
     }
   }
 
-  fclose(f);
+  if (fclose(f) != 0) {
+    *err = strerror(errno);
+    return false;
+  }
 
   if (!ReplaceContent(path.AsString(), temp_path, err))
     return false;
